@@ -7,6 +7,7 @@ pub mod report;
 pub mod spec;
 pub mod sweep;
 pub mod modes;
+pub mod product;
 
 pub use machine::{EnumMachine, Machine};
 pub use reference::ERR_FLAG;
@@ -35,9 +36,10 @@ pub fn cli_main(machines: Vec<Box<dyn Machine>>, enums: Vec<Box<dyn EnumMachine>
     let spec_text = std::fs::read_to_string(spec_path).expect("read spec");
     // the spec is run-time data: keep the optimiser from seeing through it
     let spec_text = std::hint::black_box(spec_text);
-    let spec: spec::SpecFile = serde_json::from_str(&spec_text).expect("parse spec");
-    let by_name: HashMap<&str, &dyn Machine> = machines.iter().map(|m| (m.name(), m.as_ref())).collect();
-    let mut paired: Vec<(&dyn Machine, &spec::MachineSpec)> = Vec::new();
+    let spec: &'static spec::SpecFile = Box::leak(Box::new(serde_json::from_str(&spec_text).expect("parse spec")));
+    let machines: &'static [Box<dyn Machine>] = Box::leak(machines.into_boxed_slice());
+    let by_name: HashMap<&str, &'static dyn Machine> = machines.iter().map(|m| (m.name(), m.as_ref())).collect();
+    let mut paired: Vec<(&'static dyn Machine, &'static spec::MachineSpec)> = Vec::new();
     for ms in &spec.machines {
         match by_name.get(ms.name.as_str()) {
             Some(m) => paired.push((*m, ms)),
@@ -72,10 +74,28 @@ pub fn cli_main(machines: Vec<Box<dyn Machine>>, enums: Vec<Box<dyn EnumMachine>
                 threads,
                 families: get("--families", "").split(',').filter(|s| !s.is_empty()).map(|s| s.to_string()).collect(),
                 kinds: get("--kinds", ""),
+                strict_storage: get("--strict-storage", "0") == "1",
             };
             sweep::sweep(&paired, &cfg)
         }
         "consts" => modes::consts(&paired, get("--full-n", "16").parse().unwrap(), threads),
+        "product" => {
+            let cfg = product::ProductCfg {
+                full_n: get("--full-n", "12").parse().unwrap(),
+                values: get("--values", "small"),
+                full_w: get("--full-w", "8").parse().unwrap(),
+                depth: get("--depth", "0").parse().unwrap(),
+                threads,
+                props: get("--props", ""),
+            };
+            let fams: Vec<String> = get("--families", "").split(',').filter(|s| !s.is_empty()).map(|s| s.to_string()).collect();
+            let sel: Vec<_> = paired.iter().filter(|(_, ms)| fams.is_empty() || fams.iter().any(|f| *f == ms.family)).cloned().collect();
+            product::product(&sel, &cfg)
+        }
+        "builder" => {
+            let refs: Vec<(&dyn Machine, &spec::MachineSpec)> = paired.iter().map(|&(m, s)| (m as &dyn Machine, s as &spec::MachineSpec)).collect();
+            modes::builder(&refs, get("--full-w", "8").parse().unwrap(), get("--cap", "65536").parse().unwrap(), threads)
+        }
         "enum" => modes::enums(&epaired, get("--full-n", "16").parse().unwrap(), threads),
         "replay" if paired.is_empty() => modes::replay_enum(&epaired, &get("--replay", "")),
         "replay" => modes::replay(&paired, &get("--replay", "")),
